@@ -145,16 +145,18 @@ func runClientHistory(p *peers, kind string, ops []cOp, idx int) histResult {
 	var err error
 	switch kind {
 	case "streamable":
-		ct = &ctl{kind: kind}
+		ct = &ctl{kind: kind, base: newClientPool()}
 		ctls.Store(tag, ct)
 		defer ctls.Delete(tag)
+		defer ct.base.CloseIdleConnections()
 		hc, err = mcp.NewClient(p.streamable.URL+"/mcp", info, mcp.WithClientLogger(hk.QuietLogger{}),
 			mcp.WithHTTPHeaders(http.Header{tagHeader: {tag}}), mcp.WithClientGetSSEEnabled(idx%2 == 0))
 		conn = hc
 	case "sse":
-		ct = &ctl{kind: kind}
+		ct = &ctl{kind: kind, base: newClientPool()}
 		ctls.Store(tag, ct)
 		defer ctls.Delete(tag)
+		defer ct.base.CloseIdleConnections()
 		hc, err = mcp.NewSSEClient(p.sse.URL+"/sse", info, mcp.WithClientLogger(hk.QuietLogger{}), mcp.WithHTTPHeaders(http.Header{tagHeader: {tag}}))
 		conn = hc
 	case "stdio":
@@ -396,6 +398,26 @@ func clientJobs(c *hk.Ctx) []job {
 				for _, last := range []cOp{{T: "req", K: "ReadResource"}, {T: "init", E: "ok"}, {T: "roots"}} {
 					jobs = append(jobs, job{kind, []cOp{{T: "init", E: "ok"}, mid, last}, "selected"})
 					jobs = append(jobs, job{kind, []cOp{{T: "init", E: "badResult"}, mid, last, {T: "req", K: "GetPrompt"}}, "selected"})
+				}
+			}
+		}
+		// a handshake broken at each stage, then a good one — and the same again (after Close on the streamable client, whose
+		// transport reopens; back to back on the others), each followed by an operation that needs the handshake
+		for _, a := range alpha {
+			if a.T != "init" || a.E == "ok" {
+				continue
+			}
+			ok, use := cOp{T: "init", E: "ok"}, cOp{T: "req", K: "ListResources"}
+			jobs = append(jobs, job{kind, []cOp{a, ok, use}, "recovery"})
+			jobs = append(jobs, job{kind, []cOp{a, a, ok, use, ok}, "recovery"})
+			jobs = append(jobs, job{kind, []cOp{a, ok, use, {T: "close"}, a, ok, use}, "recovery"})
+			for _, b := range alpha {
+				if b.T == "init" && b.E != "ok" {
+					mid := cOp{T: "terminate"}
+					if kind == "stdio" {
+						mid = cOp{T: "roots"}
+					}
+					jobs = append(jobs, job{kind, []cOp{a, b, ok, use, mid, {T: "close"}, b, a, ok, use}, "recovery"})
 				}
 			}
 		}
